@@ -255,7 +255,7 @@ def judge_game(ctx, exe, drv, fen, moves, rng, tier):
     return problems
 
 
-def judge_walk(ctx, exe, drv, fen, moves, rng, use_startpos=False):
+def judge_walk(ctx, exe, drv, fen, moves, rng, use_startpos=False, initial=False):
     """a random walk over the state-changing commands of the front end with the rules as oracle: whatever mixture of
     `position` (fresh, shorter, textually extending the previous one), `moves`, `position fen <later position>`,
     `ucinewgame` and `go` is sent, `printboard` must show the oracle position, `hash` must depend on the position only
@@ -272,6 +272,11 @@ def judge_walk(ctx, exe, drv, fen, moves, rng, use_startpos=False):
     o = None
     lastP = None
     steps = 0
+    if initial and use_startpos:
+        # no `position` command at all: the state the process starts with is the initial position (uci.cpp: loop())
+        o = 0
+        cmds.append('printboard'); checks.append((0, 'fen', 0))
+        cmds.append('hash'); checks.append((1, 'hash', 0))
     while steps < 14:
         steps += 1
         kind = rng.choice(['P', 'PX', 'PX', 'M', 'M', 'PF', 'N', 'G'])
@@ -356,12 +361,32 @@ def run(ctx, pid, ngames, maxplies=24):
     START = 'rnbqkbnr/pppppppp/8/8/8/8/PPPPPPPP/RNBQKBNR w KQkq - 0 1'
     walks = [(f, m, random.Random(rng.randrange(1 << 30)), f == START and k % 2 == 0) for k in range(3) for f, m in fixed + games if len(m) >= 2]
 
+    # the same walks through the ENGINE BINARY ITSELF (engine/main.cpp: its own initialisation order and Uci construction), some of
+    # them starting from the state the process comes up with (no `position` command first)
+    real_walks = []
+    try:
+        import vbuild
+        real = vbuild.build_engine('san')
+        starts = [(f, m) for f, m in fixed + games if f == START and len(m) >= 2]
+        nreal = 4 if ctx.tier == 'quick' else 60
+        for k in range(nreal):
+            f, m = starts[k % len(starts)] if starts else (fixed[0][0], fixed[0][1])
+            real_walks.append((f, m, random.Random(rng.randrange(1 << 30)), True, real, k % 2 == 0))
+        for f, m in (fixed + games)[:nreal]:
+            if len(m) >= 2:
+                real_walks.append((f, m, random.Random(rng.randrange(1 << 30)), f == START, real, False))
+        ctx.count('uci_sessions_through_engine_main', len(real_walks))
+    except Exception as e:
+        ctx.notes.append('sessions through the engine binary (main.cpp) skipped: ' + str(e)[:300])
+
     def one(j):
+        if len(j) == 6:
+            return judge_walk(ctx, j[4], ctx.drv, j[0], j[1], j[2], j[3], initial=j[5])
         if len(j) == 4:
             return judge_walk(ctx, ctx.exe, ctx.drv, j[0], j[1], j[2], j[3])
         return judge_game(ctx, ctx.exe, ctx.drv, j[0], j[1], j[2], ctx.tier)
     with ThreadPoolExecutor(max_workers=max(2, (os.cpu_count() or 4) // 2)) as ex:
-        for probs in ex.map(one, jobs + walks):
+        for probs in ex.map(one, jobs + walks + real_walks):
             seen += 1
             ctx.cov['evaluations'] += 1
             ctx.count('uci_glue_sessions')
